@@ -1,5 +1,6 @@
 import ColaVerif.DriverLib
 import ColaVerif.Model.LogDet
+import ColaVerif.Model.KrylovExact
 
 /-!
 Line-protocol driver of C07 (slogdet / logdet).  One JSON case per line:
@@ -12,10 +13,15 @@ violated input preconditions and the named clauses.
 The numerical kernels of the base cases are instantiated by exact ones that satisfy the
 contracts of the theorems: `lu` = exact elimination with row exchanges (`A = L[p] @ U`),
 `chol` = exact Cholesky (fails with "inexact-sqrt" when a pivot is not a rational square),
-`trlog` = the assertions of `cola.linalg.unary.apply_unary` followed by the exact determinant (the
-contract `exp(tr log A) = det A`; since /repo 3c4ea3a the rule takes the complex logarithm, so
-indefinite leaves and negative Diagonal / ScalarMul entries are inside the contract), with the two
-recorded outcomes outside it: "krylov-zero-probe" (undetermined) for a BlockDiag of Krylov
+`trlog` = the assertions of `cola.linalg.unary.apply_unary` followed by the EXACT KRYLOV MODEL
+(`Model/KrylovExact.lean`): for every identity probe `e_i` of the exact trace the un-normalised
+Lanczos / Arnoldi recurrence over ℚ[i] run to exhaustion (`A Qᵢ = Qᵢ Hᵢ` re-checked), the power sums
+`t_k = Σ_i (Qᵢ Hᵢ^k e₁)_i`, and the determinant reconstructed from them by Newton's identities — i.e. the
+Krylov path evaluated on the monomials, NOT the specification `detGE`.  (The transcendental step
+`exp ∘ tr ∘ log` of the real code is covered by the theorems `C07_exp_trace_log` / `C07_krylov_columns`
+/ `C07_slogdet_krylov` and by the tolerance comparison, not by this executable model; since /repo 3c4ea3a
+the rule takes the complex logarithm, so indefinite leaves and negative entries are inside the domain.)
+Two recorded outcomes lie outside the model: "krylov-zero-probe" (undetermined) for a BlockDiag of Krylov
 operators below a Transpose / Adjoint, and "lanczos-batch-breakdown" (undetermined) when the
 probing vectors of the exact trace have Krylov spaces of different dimensions (the batched Lanczos
 loop then divides by a zero / rounding-level norm, see C14).
@@ -146,57 +152,34 @@ partial def zeroProbe (A : Op GRat) : Bool :=
   | .adjoint B => zeroProbe B
   | _ => false
 
-/-- rank of the `k × n` matrix with the given rows (row echelon form over ℚ[i]) -/
-def rankRows (n : Nat) (rows : Array (Array GRat)) : Nat := Id.run do
-  let mut a := rows
-  let mut r := 0
-  for c in [0:n] do
-    match (List.range' r (a.size - r)).find? (fun i => !gIsZero (gget a i c)) with
-    | none => pure ()
-    | some piv =>
-      a := swapRows a r piv
-      let rowr := a.getD r #[]
-      let pinv := (gget a r c).inv
-      for i in [r+1:a.size] do
-        let f := gget a i c * pinv
-        if !gIsZero f then
-          let rowi := a.getD i #[]
-          a := a.setIfInBounds i (Array.ofFn (n := n) fun j => rowi.getD j.val 0 - f * rowr.getD j.val 0)
-      r := r + 1
-  return r
-
-/-- dimension of the Krylov space of `(D, e_i)` -/
-def krylovDim (n : Nat) (D : MatF GRat) (i : Nat) : Nat := Id.run do
-  let Da := toGMat n D
-  let mut v : Array GRat := Array.ofFn (n := n) fun j => if j.val = i then 1 else 0
-  let mut rows : Array (Array GRat) := #[]
-  for _ in [0:n] do
-    rows := rows.push v
-    let v0 := v
-    v := Array.ofFn (n := n) fun r => (List.range n).foldl (fun acc c => acc + gget Da r.val c * v0.getD c 0) 0
-  return rankRows n rows
-
 /-- the probing vectors `e_0 … e_{n-1}` of the exact trace go through `lanczos` as ONE batch; the
 batched loop runs every member until the last one is done (C14, clause batch-member-breakdown),
-so the kernel's contract needs all members' Krylov spaces to have the same dimension -/
-def krylovDimsEqual (n : Nat) (D : MatF GRat) : Bool :=
-  match (List.range n).map (krylovDim n D) with
+so the real kernel needs all members' Krylov spaces to have the same dimension (grades computed by
+the exact Krylov model) -/
+def krylovDimsEqual (n : Nat) (Da : Array (Array GRat)) : Bool :=
+  match KrylovExact.grades n Da with
   | [] => true
   | d :: ds => ds.all (· == d)
 
-/-- `trace(log(A, alg), trace_alg)` represented by `exp` of it (contract: `= det A`) -/
+/-- the Krylov path on the monomials: determinant from the power sums of the exact Krylov model -/
+def krylovDet (n : Nat) (Da : Array (Array GRat)) : Except String GRat :=
+  match KrylovExact.powerSums n Da with
+  | none => .error "krylov-invariance-check-failed"
+  | some t => .ok (KrylovExact.detFromPowerSums n t)
+
+/-- `trace(log(A, alg), trace_alg)` represented by `exp` of it -/
 def trlogK (la : LogAlg) (_ta : TraceAlg) (A : Op GRat) : Except String GRat :=
   let n := A.rows
-  let D := (forceV n n A.den.f).f
+  let Da := KrylovExact.toRows n (forceV n n A.den.f).f
   match la with
   | .lanczos =>
       if !lanczosAssert A then .error "assert"
       else if zeroProbe A then .error "krylov-zero-probe"
-      else if !krylovDimsEqual n D then .error "lanczos-batch-breakdown"
-      else .ok (detGE n D)
+      else if !krylovDimsEqual n Da then .error "lanczos-batch-breakdown"
+      else krylovDet n Da
   | _ =>
       if zeroProbe A then .error "krylov-zero-probe"
-      else .ok (detGE n D)
+      else krylovDet n Da
 
 def eqWin (n : Nat) (a b : MatF GRat) : Bool :=
   (List.range n).all fun i => (List.range n).all fun j => a i j == b i j
@@ -231,10 +214,10 @@ in Python a `nan` result does not stop the evaluation, so an assertion of a LATE
 raised; `code_lenient` lets the harness see it -/
 def trlogLenient (la : LogAlg) (_ta : TraceAlg) (A : Op GRat) : Except String GRat :=
   let n := A.rows
-  let D := (forceV n n A.den.f).f
+  let Da := KrylovExact.toRows n (forceV n n A.den.f).f
   match la with
-  | .lanczos => if !lanczosAssert A then .error "assert" else .ok (detGE n D)
-  | _ => .ok (detGE n D)
+  | .lanczos => if !lanczosAssert A then .error "assert" else krylovDet n Da
+  | _ => krylovDet n Da
 
 def kernelsLenient : DetKernels GRat GRat := ⟨cholChecked, luChecked, trlogLenient⟩
 
